@@ -240,15 +240,13 @@ Corollary advance_prefix_shape : forall pre post p0,
 Proof. intros. rewrite advance_app. unfold advance. apply advance_walk. Qed.
 
 (* C + D together: positions computed in a normalised comment text are the
-   positions in the raw source text (for Markdown reference comments, provided
-   the blanked gap holds no newline, see Comment_proofs.v). *)
+   positions in the raw source text. *)
 Theorem normalised_positions : forall k s t n p0,
   normalise k s = Ok (Some t) ->
-  (k = K_MD_REF -> Forall (fun c => c <> 10) (md_gap s)) ->
   (exists pre post, s = pre ++ post /\ blen pre = n) ->
   (exists pre post, t = pre ++ post /\ blen pre = n) ->
   advance t n p0 = advance s n p0.
 Proof.
-  intros k s t n p0 H Hmd Hs Ht. apply advance_shape; [|exact Ht|exact Hs].
-  eapply normalise_shape_partial; eassumption.
+  intros k s t n p0 H Hs Ht. apply advance_shape; [|exact Ht|exact Hs].
+  eapply normalise_shape; eassumption.
 Qed.
